@@ -93,6 +93,18 @@ def stepC27 (s : DS) (fs : List String) : DS × String :=
   | ["hdel", sid, path] => withObj s sid path hubDelete
   | ["hcompact", sid, path, del] => withObj s sid path (fun o => hubCompact o (del == "1"))
   | ["hsweep", sid, path] => withObj s sid path hubSweep
+  | ["hcdel", sid, path] => withObj s sid path hubCompactDelete
+  | ["hredeliver", sid, path] =>
+    -- a delivery outside the reconcile protocol (air-gap bundle import / duplicate): whole file, offset 0
+    match (s.spoke sid).file? path with
+    | none => (s, "nofile")
+    | some fl =>
+      let q : Req := { sha := fl.bytes, size := fl.bytes.length, off := 0, body := fl.bytes, bodyErr := false, failRec := false }
+      let (o, res) := receive id (s.hub.get (sid, path)) q
+      let out := match res with
+        | .committed _ => "committed" | .already _ => "already" | .part _ => "partial"
+        | .conflict => "conflict" | .mismatch => "mismatch" | .backpressure => "backpressure" | .err => "err"
+      ({ s with hub := s.hub.set (sid, path) o }, out)
   | "run" :: sid :: inst :: batch :: cap :: crash :: faults =>
     -- `inst` (new | same): a fresh Agent/process or the same long-lived Agent instance. The model does
     -- not distinguish them: every pass starts with RecoverInFlight (C27_recover_every_pass).
